@@ -900,7 +900,10 @@ def plant_sec(anno, genome, rng: random.Random, tx_id: str, near_start: bool = T
             try:
                 g2 = [anno.coordinate_transcript_to_genomic(p2 + j, tx_id) for j in range(3)]
                 l2, h2 = min(g2), max(g2)
-                if h2 - l2 == 2 and not (l2 <= hi and lo <= h2):
+                # never on a codon that is itself an annotated Sec (the annotation would then sit
+                # on a lysine codon: an inconsistent reference, not a property of the tool)
+                on_sec = any(abs(p2 - h) < 3 for h in have)
+                if h2 - l2 == 2 and not (l2 <= hi and lo <= h2) and not on_sec:
                     nts[l2:h2 + 1] = list('AAG' if strand == 1 else 'CTT')
             except Exception:   # noqa
                 pass
